@@ -74,8 +74,15 @@ def gen_base(rng, tier, index):
                              "t": rng.choice([0.03, 0.06]), "chunk": rng.choice([0, 0, max(0, nchunks - 2), nchunks - 1]),
                              "phase": rng.randrange(2), "nchunks": nchunks}
         workers = max(workers, 2)
-    return {"pool": "factory" if index % 4 == 1 else "functor", "workers": workers,
+    case = {"pool": "factory" if index % 4 == 1 else "functor", "workers": workers,
             "wq": rng.choice([None, 1, 2, 0.5, 1.0, 1.0]), "rq": rq, "calls": [call]}
+    if index % 8 == 2 and n >= 2:
+        # a request/response stream: the next item exists only after the previous result was received
+        call.update(chunk=1, form="list", request_response=True)
+        call.pop("slow", None)
+    if index % 8 == 6:
+        case["worker_opts"] = {"functor_forks_a_child": True}      # the functor uses a helper process of its own
+    return case
 
 
 def owns(kind, mech, case, result):
